@@ -63,6 +63,38 @@ def drive(ctx):
                 for (x, y) in ((w1, w2), (w2, w1), (w1, w1)):
                     n += 1
                     ctx.emit("iv_len", {"entry": ENTRIES[n % len(ENTRIES)]}, [mk_dt(zr, x, fa), mk_dt(zr, y, fb)])
+    # relations built on the elapsed time: closest / farthest / average / same day / anniversary
+    for zn in my:
+        zr = {"n": zn, "fo": 0}
+        trs = zone_transitions(ctx, zn)
+        for (sec, b, a) in pick(rnd, trs, 2 if q else 12):
+            if not LO + 86400 * 800 < sec < HI - 86400 * 800:
+                continue
+            other = {"n": rnd.choice(pool), "fo": 0}
+            x = mk_dt(zr, local_wall(sec - rnd.randrange(1, 7200), b, rnd.randrange(1000000)), 0)
+            cands = [mk_dt(zr, local_wall(sec + rnd.randrange(0, 7200), a, rnd.randrange(1000000)), 1),
+                     mk_dt(other, i3_to_wall(sec_to_i3(sec - rnd.randrange(7200, 20000), 5)), 0),
+                     mk_dt(UTCZ, i3_to_wall(sec_to_i3(sec + rnd.randrange(-3, 4), rnd.choice((0, 400000, 999999)))), 0),
+                     mk_dt(zr, local_wall(sec + 86400 * rnd.randrange(-700, 700), a, 1), 0)]
+            for i in range(len(cands)):
+                for j in range(len(cands)):
+                    if i != j and (not q or (i + j + n) % 2):
+                        n += 1
+                        ctx.emit("rel", {"m": ("closest", "farthest")[n % 2]}, [x, cands[i], cands[j]])
+            for c in cands:
+                ctx.emit("rel", {"m": "average"}, [x, c])
+                ctx.emit("rel", {"m": "average"}, [c, x])
+                ctx.emit("rel", {"m": "is_same_day"}, [x, c])
+                ctx.emit("rel", {"m": "is_anniversary"}, [c, x])
+    for k in range(60 if q else 1500):
+        y, mo, d = rnd.randrange(1900, 2100), rnd.randrange(1, 13), rnd.choice((1, 15, 28))
+        da = {"k": "date", "w": [y, mo, d], "cls": "Date"}
+        db = {"k": "date", "w": [y + rnd.choice((0, 0, 1, -3)), rnd.choice((mo, mo, 1 + (mo + 4) % 12)), rnd.choice((d, d, 1, 27))], "cls": "Date"}
+        dc = {"k": "date", "w": [y + rnd.choice((0, 1)), 1 + (mo + rnd.randrange(12)) % 12, rnd.choice((2, 14, 28))], "cls": "Date"}
+        ctx.emit("rel", {"m": ("closest", "farthest")[k % 2]}, [da, db, dc])
+        ctx.emit("rel", {"m": "average"}, [da, dc])
+        ctx.emit("rel", {"m": "is_same_day"}, [da, db])
+        ctx.emit("rel", {"m": "is_anniversary"}, [da, db])
     # Date pairs, naive pairs, random pairs over the whole range
     for k in range(300 if q else 4000):
         s1 = rnd.randrange(LO, HI)
